@@ -162,8 +162,19 @@ FloatOps == {"add", "sub", "mul", "div"} \cup CmpOps
 (*  [k|->"f2f", fw, a, fw2]               float -> float                    *)
 (*  [k|->"fbin", op, fw, ka, kb]          float binary on dyadics ka/4,kb/4 *)
 (*  [k|->"fneg", fw, ka]                                                    *)
+(* bool and char: a bool is one byte 0 / 1, a char one unsigned byte *)
+BoolBinOp(op, a, b) ==
+    LET x == a = <<1>> y == b = <<1>> IN
+    BoolBytes(CASE op = "land" -> x /\ y [] op = "lor" -> x \/ y [] op = "and" -> x /\ y [] op = "or" -> x \/ y
+                [] op = "xor" -> x # y [] op = "eq" -> x = y [] op = "ne" -> x # y)
 Result(c) ==
     CASE c.k = "bin" -> IntBin(c.op, c.a, c.b, c.s)
+      [] c.k = "bbin" -> BoolBinOp(c.op, c.a, c.b)
+      [] c.k = "bnot" -> BoolBytes(c.a # <<1>>)
+      [] c.k = "ccmp" -> BoolBytes(Cmp(c.op, c.a, c.b, FALSE))
+      [] c.k = "b2i" -> Resize(c.a, c.w2, FALSE)              \* bool -> integer: 0 or 1
+      [] c.k = "c2i" -> Resize(c.a, c.w2, FALSE)              \* char -> integer: its code, zero-extended
+      [] c.k = "i2c" -> Resize(c.a, 1, FALSE)                 \* u8 -> char
       [] c.k = "un" -> IntUn(c.op, c.a)
       [] c.k = "cast" -> IntCast(c.a, c.s, c.w2)
       [] c.k = "i2f" -> IntToFloat(c.a, c.s, c.fw)
